@@ -140,7 +140,14 @@ var c12Wrappers = []struct {
 	{"eq", func(x string) string { return "(" + x + ") == b" }},
 	{"and", func(x string) string { return "a and (" + x + ")" }},
 	{"ci-eq", func(x string) string { return "(" + x + ") =~ 's'" }},
+	{"or-then-mul", func(x string) string { return "a or (" + x + ") * 1" }},
+	{"cmp-then-add", func(x string) string { return "a == (" + x + ") + 1" }},
+	{"neg-call", func(x string) string { return "-f(" + x + ")" }},
+	{"neg-mul", func(x string) string { return "-(a * " + x + ")" }},
 }
+
+// c12Bases: the innermost operand; the erroneous ones start error cascades at the bottom of the nest.
+var c12Bases = []string{"a", "b +", "", "1 1", "'x", "!", ")", "f(", "a[", "in"}
 
 func nestWrappers(i, j, depth int, base string) string {
 	x := base
@@ -222,19 +229,27 @@ func c12Main(r *run.Runner) {
 		}
 	}
 	// systematic nesting: every wrapper alone at every depth, every ordered pair alternating
-	type nc struct{ i, j, depth, pos int }
+	type nc struct{ i, j, depth, pos, base int }
 	var nests []nc
 	for i := range c12Wrappers {
 		for d := 1; d <= 48; d++ {
-			nests = append(nests, nc{i, i, d, d % len(c12Positions)})
+			nests = append(nests, nc{i, i, d, d % len(c12Positions), 0})
 		}
 		for _, d := range []int{64, 100, 200} {
-			nests = append(nests, nc{i, i, d, 0})
+			nests = append(nests, nc{i, i, d, 0, 0})
+		}
+		for b := 1; b < len(c12Bases); b++ {
+			for _, d := range []int{1, 2, 8, 24, 40, 64} {
+				nests = append(nests, nc{i, i, d, 0, b})
+			}
 		}
 		for j := range c12Wrappers {
 			if i != j {
-				for _, d := range []int{6, 16, 30, 48} {
-					nests = append(nests, nc{i, j, d, (i + j) % len(c12Positions)})
+				for _, d := range []int{6, 16, 30, 48, 64, 80} {
+					nests = append(nests, nc{i, j, d, (i + j) % len(c12Positions), 0})
+				}
+				for _, d := range []int{30, 64} {
+					nests = append(nests, nc{i, j, d, 0, 1 + (i+j)%(len(c12Bases)-1)})
 				}
 			}
 		}
@@ -260,8 +275,8 @@ func c12Main(r *run.Runner) {
 	r.MaxWorkers = 4
 	r.Sweep("nesting-wrappers", int64(len(nests)), func(w *run.Worker, item int64) {
 		n := nests[item]
-		base := "a"
-		if n.pos == 1 {
+		base := c12Bases[n.base]
+		if n.pos == 1 && n.base == 0 {
 			base = "1" // let values are closed expressions
 		}
 		totalEach(w, c12Positions[n.pos](nestWrappers(n.i, n.j, n.depth, base)))
